@@ -31,14 +31,16 @@ ASSUMPTIONS = [
     "C++ int modelled as unbounded Int; std::round modelled as round-half-away-from-zero on the exact value",
     "out-of-range vector indices in the export functions (UB, asserted against in the default build) read a default in the model",
     "hasCellSizeUpdate_, hasNetUpdate_ are bookkeeping flags outside the statement (not compared); isInUse_ is written only by "
-    "the scoped InUseGuard of the three wrappers (table + guarded_call_frame: cleared on every exit)",
+    "the scoped InUseGuard of the three wrappers (the translator accepts exactly two shapes, set/clear and save/set/restore; table + "
+    "guarded_call_frame: after the call the flag equals its value before the call — always for the restore shape now in the tree, "
+    "for the set/clear shape when entered with the flag clear)",
     "binary32 blend: x86-64/SSE float evaluation (FLT_EVAL_METHOD 0), no FMA contraction in the build; values finite and below 2^128",
 ]
 LEVEL_TEXT = ("Lean 4 theorems: for any vectors handed to GlobalPlacer/Legalizer/DetailedPlacement::exportPlacement "
               "(including the legalizer's throwing path and the blended final export of global placement for any weight), for "
               "GlobalPlacer::place and DetailedPlacer::place as wholes with or without callback (any number of exposed placements, any "
               "prefix = exception) and for any sequence of such exports under the InUseGuard wrapper, the circuit keeps every field "
-              "except x/y(/orientation) of non-fixed cells, global exports keep all orientations, and isInUse_ is cleared on every exit; a "
+              "except x/y(/orientation) of non-fixed cells, global exports keep all orientations, and isInUse_ is put back to its value before the call on every exit; a "
               "decide-checked table, regenerated from the clang AST on every run, lists (file, function, line, member, kind, fixed-cell "
               "guard) every Circuit write in src/place_global, src/place_detailed and the placement entry points of src/coloquinte.{hpp,cpp}: "
               "each is one of those guarded element writes, a bookkeeping flag or the scoped isInUse_ guard, every hand-over of a "
